@@ -177,8 +177,15 @@ func (c *MemoryCache[MetadataT]) cacheInternal(key CacheKey, data io.Reader, exp
 	}
 
 	c.mu.Lock()
+	replaced, wasPresent := c.entries[key]
 	c.entries[key] = internalEntry
 	c.mu.Unlock()
+
+	if wasPresent {
+		// Overwriting an existing key: the replaced entry no longer counts.
+		decrementCacheEntries()
+		decrementCacheSize(&c.byteSize, replaced.meta.Size)
+	}
 
 	incrementCacheEntries()
 	addCacheSize(&c.byteSize, int64(count))
